@@ -239,6 +239,27 @@ int main()
             const auto r = bitspan(mem.data(), num(tok[2]), num(tok[3])).subspan(num(tok[4]), num(tok[5]));
             if (!r) std::printf("-%d\n", static_cast<int>(r.error())); else show_span(r.value(), mem.data());
         }
+        else if (c == "xza" && nt == 4)
+        {
+            Buf b(tok[1]);
+            const auto r = bitspan(b.p, num(tok[2]), num(tok[3])).setZeros();
+            finish(rc(r), b);
+        }
+        else if (c == "xcpa" && nt == 7)
+        {
+            Buf d(tok[1]), s(tok[4]);
+            const_bitspan(s.p, num(tok[5]), num(tok[6])).copyTo(bitspan(d.p, num(tok[2]), num(tok[3])));
+            finish("", d, &s);
+        }
+        else if (c == "xat" && nt == 4)
+        {
+            const const_bitspan s = const_bitspan(arena, num(tok[1]), num(tok[2])).at_offset(num(tok[3]));
+            std::printf("%zu %zu\n", s.size(), s.offset());
+        }
+        else if (c == "xob" && nt == 3)
+        {
+            std::printf("%zu\n", const_bitspan(arena, num(tok[1]), num(tok[2])).offset_bytes());
+        }
         else if (c == "xbits" && nt == 3)
         {
             std::printf("%zu\n", const_bitspan(arena, num(tok[1]), num(tok[2])).size());
